@@ -57,7 +57,7 @@ RECURSIVE SubA(_)
 SubA(a) == {a} \cup UNION {SubA(kids[a][k]) : k \in 1..Len(kids[a])}
 
 RECURSIVE Flat(_, _), FlatL(_, _)
-Flat(a, d)   == <<[s |-> fOf[a], d |-> d, e |-> TRUE]>> \o FlatL(kids[a], d + 1)
+Flat(a, d)   == <<[s |-> fOf[a], d |-> d, e |-> TRUE, v |-> TRUE]>> \o FlatL(kids[a], d + 1)
 FlatL(ks, d) == IF ks = <<>> THEN <<>> ELSE Flat(Head(ks), d) \o FlatL(Tail(ks), d)
 Snap == IF aOf[1] = 0 THEN <<>> ELSE Flat(aOf[1], 0)
 
@@ -84,7 +84,7 @@ Init ==
     /\ aOf = [f \in Ids |-> IF f <= n THEN f ELSE 0]
     /\ nA = n /\ nF = n
     /\ \E o \in Ons, b \in Backs, r \in Recs, s \in Selfs :
-         cfg = [on |-> o, back |-> b, recurse |-> r, self |-> s, scope |-> FALSE, rootleave |-> TRUE]
+         cfg = [on |-> o, back |-> b, recurse |-> r, self |-> s, scope |-> FALSE]
     /\ frames = <<[stk |-> <<>>, rec |-> cfg.recurse]>>
     /\ pc = "start" /\ cur = 0 /\ lv = FALSE /\ rec = "F" /\ isSelf = FALSE
     /\ muts = 0 /\ parkMuts = 0 /\ sends = 0 /\ nsend = 0 /\ lastSend = "none" /\ replacedCur = FALSE
@@ -243,7 +243,7 @@ Resume ==
   /\ pc' = CASE pc = "yS" -> "aS" [] pc = "yE" -> "aE" [] pc = "yL" -> "aL" [] pc = "yT" -> "aT"
   /\ LET T1 == Snap
          op1 == IF lastSend = "T" THEN opened \cup {cur} ELSE opened
-         below == FirstBelow(T1, cur, cfg, op1)
+         below == FirstBelow(T1, cur, cfg, op1, FALSE)
      IN /\ opened' = op1
         /\ closed' = IF lastSend = "F" THEN closed \cup {cur} ELSE closed
         /\ exp' = IF CurIdx0 = 0 THEN NoExp
